@@ -14,7 +14,7 @@ SPEC = {
                  "acceptance/normal-form characterisations of the string pipeline, IntField/PortField and BoolField, the bounds "
                  "of FloatField (NaN rejected by any bound); every accepted value of every class meets the declared constraints "
                  "(meets), and outside F13 is a normal form (normal) which is a fixed point of validate; the on-disk round trip "
-                 "to_python(to_basic v) re-validates to exactly v for every class except typed DictField, typed lists of anything "
+                 "to_python(to_basic v) re-validates to exactly v for every modelled class, typed lists and typed dicts of anything "
                  "(bytes included) by induction; IPv4 and CIDR print/parse round trips for all addresses below 2^32 and all "
                  "prefixes, accepted address text is canonical; hex and base64 decode(encode b) = b for all byte strings; strip "
                  "idempotent; ASCII case maps idempotent and length preserving; required-empty, tuple->list and bool-is-not-a-"
@@ -46,8 +46,9 @@ SPEC = {
     "assumptions": [
         "idempotence is stated outside the open finding F13 (string-like field with a character-set strip AND a case transform); "
         "C05_validate_idem_refuted proves the violation inside it",
-        "round-trip theorem C05_basic_roundtrip_partial does not cover typed DictField (key-collision reasoning for dict() "
-        "is not proved); typed dicts are covered by the correspondence stream and the direct round-trip oracle only",
+        "round-trip theorem C05_basic_roundtrip: domain rt_dom = typed-container positions hold a container, untyped containers "
+        "are builtin lists/dicts, the keys of a typed dict are pairwise different hashable scalars (None/bool/int/str/bytes) under "
+        "a scalar key field; input of the soundness theorems is plain data (no proxies, byte strings hold bytes)",
         "an unset (None) typed list/dict comes back as the empty container (allowed by property C02; lemma "
         "C05_unset_typed_container)",
         "'equal value' is structural equality with exact types (NaN equals NaN, -0.0 differs from 0.0)",
